@@ -6,5 +6,6 @@ export CARGO_NET_OFFLINE=true
 python3 tools/gen_registry.py
 cp /repo/Cargo.lock harness/Cargo.lock 2>/dev/null || true
 (cd lean && lake build DfModel dfdrv DfModel.Audit.Tool)
-(cd harness && cargo build --workspace)
+# one build per harness binary, exactly as `check` builds them (cargo resolves features per -p selection)
+for b in hutil hplan hfull hrt; do (cd harness && cargo build -p $b); done
 echo "setup done"
